@@ -257,6 +257,39 @@ func c18(r *Run) {
 		} else {
 			r.missing("C18.R4", "reprocess:sequence", "VerifyBlock / AcceptBlock / notifications not found in reprocessFromOutputToInput")
 		}
+		// R8: re-processing is a chain: block n+1 is verified on the output of block n and accepted on the accepted state
+		// of block n (loop-carried values, seeded with the function's output/accepted arguments), and the result carries
+		// the last of both
+		r.rule("C18.R8", "K5", "re-processing verifies each block on the previous block's output and accepts it on the previous block's accepted state", 3)
+		if len(vb) == 1 && len(ab) == 1 {
+			carried := func(v ssa.Value, seed string, c ssa.CallInstruction) bool {
+				ph, ok := strip(v).(*ssa.Phi)
+				if !ok {
+					return false
+				}
+				hasSeed, hasPrev := false, false
+				for _, e := range ph.Edges {
+					if term(e) == seed {
+						hasSeed = true
+					}
+					for _, rv := range resultN(c, 0) {
+						if strip(e) == rv {
+							hasPrev = true
+						}
+					}
+				}
+				return hasSeed && hasPrev
+			}
+			va, aa := callArgs(vb[0]), callArgs(ab[0])
+			r.check(len(va) == 4 && carried(va[2], "p3", vb[0]), "C18.R8", "reprocess:verify-on-previous-output", r.at(w, vb[0]), "", "a re-processed block is not verified on the output of the block re-processed before it")
+			r.check(len(aa) == 4 && carried(aa[2], "p4", ab[0]), "C18.R8", "reprocess:accept-on-previous-accepted", r.at(w, ab[0]), "", "a re-processed block is not accepted on the accepted state of the block re-processed before it (the chain's AcceptBlock receives a stale parent, and the last accepted block served afterwards is the stale one)")
+			okN := false
+			for _, e := range findEffects(rp, "call snow.NewAcceptedBlock(p0, p2, *") {
+				na := callArgs(e.Ins.(ssa.CallInstruction))
+				okN = len(na) == 4 && carried(na[2], "p3", vb[0]) && carried(na[3], "p4", ab[0])
+			}
+			r.check(okN, "C18.R8", "reprocess:result-carries-last-output-and-accepted", w.rel(rp.Pos()), "", "the block returned by re-processing does not carry the output and accepted state of the last re-processed block")
+		}
 	}
 
 	// R6: the accept pipeline commits state before notifying subscribers, so a crash between the two is repaired only by
@@ -499,6 +532,8 @@ func globAny(list []string, pat string) bool {
 
 func c20(r *Run) {
 	w := r.W
+	// the chain is asked to verify a processing block after the hand-over only on a verified parent
+	defer r.importRules(c21, "C21.R3")
 	r.rule("C20.R1", "K3", "lifecycle fields written only by constructors, verify, accept, setAccepted", 1)
 	r.rule("C20.R2", "K1", "verified/accepted state and notifications only after the chain call succeeded", 4)
 	r.rule("C20.R3", "K1", "verifyWithContext: parent verified and context matched before chain verification; pinned only on success", 5)
@@ -728,6 +763,25 @@ func c20(r *Run) {
 	r.guardedBy(w, lockSpec{Rule: "C20.R6", Owner: pkgSnow + ".VM", Fields: []string{"verifiedBlocks"}, Mutex: "verifiedL", Pkgs: []string{pkgSnow},
 		ExemptFn: map[string]string{pkgSnow + ".NewVM": "constructor", nmSVM + "Initialize": "initialisation before the VM is handed to the engine"}, MinSites: 6})
 
+	// R8: the bounded cache of accepted blocks holds wrappers with their accepted state: only setLastAccepted puts into it
+	// (a lookup that caches the input-only wrapper it built from the index evicts the last accepted block)
+	r.rule("C20.R8", "K3", "acceptedBlocksByID / acceptedBlocksByHeight are written only by setLastAccepted", 2)
+	{
+		n := 0
+		for _, fn := range w.FnsInPkg(pkgSnow) {
+			for _, e := range effectsOf(fn) {
+				if strings.HasPrefix(e.Str, "call (*internal/cache.FIFO).Put(") && (strings.Contains(e.Str, ".acceptedBlocksByID, ") || strings.Contains(e.Str, ".acceptedBlocksByHeight, ")) {
+					n++
+					r.check(fnName(fn) == nmSVM+"setLastAccepted", "C20.R8", short(fnName(fn))+":accepted-cache-put", r.at(w, e.Ins), e.Str,
+						"the accepted-block cache is written outside setLastAccepted ("+e.Str+"): entries without accepted state can evict the last accepted block, after which its children fail verification")
+				}
+			}
+		}
+		if n < 2 {
+			r.missing("C20.R8", "setLastAccepted:puts", "the cache writes of setLastAccepted were not found")
+		}
+	}
+
 	// R7
 	gbf := r.fn(w, "C20.R7", nmSVM+"GetBlock")
 	if gbf != nil {
@@ -762,6 +816,8 @@ func pathOnlyVia(fn *ssa.Function, target ssa.Instruction, pred string) bool {
 func c21(r *Run) {
 	w := r.W
 	defer r.importRules(c20, "C20.R4")
+	// finishing behind the tip re-processes the blocks accepted meanwhile: each on the state of the one before it
+	defer r.importRules(c18, "C18.R8")
 	// re-verification of processing blocks at the hand-over runs with the replay check
 	defer r.importRules(c09, "C09.R1")
 	r.rule("C21.R1", "K1/K20", "FinishStateSync under chainLock, refuses when ready, sets ready last after re-verification succeeded", 4)
